@@ -17,7 +17,8 @@ EXEXTRACT = os.path.join(BUILD, "exextract")
 ORACLE = os.path.join(EXEXTRACT, "exoracle")
 RES = "/repo/resources"
 
-RUN_TIMEOUT = 20        # seconds: a binary that runs longer on a tiny instance "hangs"
+RUN_TIMEOUT = 20        # seconds: a binary that runs longer on a tiny instance "hangs" (re-tried once, alone, before it counts)
+SLOW = {"golomb": 150}  # golomb n = 8 needs ~7 s per run in a debug build
 ORACLE_TIMEOUT = 300
 WIDTHS = (1, 2, 3, None)
 THREADS = (1, 2, 4)
@@ -171,14 +172,15 @@ def same_value(a, b):
     except ValueError: return False
 
 
-def run_binary(example, inst, path, width, threads):
+def run_binary(example, inst, path, width, threads, patience=1):
     """-> dict(kind = ok | wrong-objective | hang | crash | not-proved, ...)"""
     cmd = command(example, inst, path, width, threads)
+    limit = SLOW.get(example, RUN_TIMEOUT) * patience
     t0 = time.time()
     try:
-        p = subprocess.run(cmd, stdout=subprocess.PIPE, stderr=subprocess.PIPE, text=True, timeout=RUN_TIMEOUT, env=EX_ENV)
+        p = subprocess.run(cmd, stdout=subprocess.PIPE, stderr=subprocess.PIPE, text=True, timeout=limit, env=EX_ENV)
     except subprocess.TimeoutExpired as e:
-        return dict(kind="hang", cmd=cmd, out="(no exit after %d s) %s" % (RUN_TIMEOUT, (e.stdout or b"")[-300:]), got=None, secs=RUN_TIMEOUT)
+        return dict(kind="hang", cmd=cmd, out="(no exit after %d s) %s" % (limit, (e.stdout or b"")[-300:]), got=None, secs=limit)
     secs = time.time() - t0
     out = p.stdout + (("\n[stderr] " + p.stderr[-600:]) if p.stderr.strip() else "")
     if p.returncode != 0 or "panicked" in p.stderr:
@@ -248,7 +250,7 @@ def check_c16(tier):
                           % (ex, rel, want, got), {"example": ex, "instance_file": os.path.join(RES, rel), "expected": want, "oracle": got})
 
     # ---- 2. instances
-    n_random = 15 if tier == "quick" else 150
+    n_random = 40 if tier == "quick" else 150
     work = []          # (example, inst, path, full_configs)
     dist = {}
     for ex in exgen.EXAMPLES:
@@ -256,10 +258,10 @@ def check_c16(tier):
         insts = exgen.generate(ex, rng.fork(), n_random)
         if ex == "golomb":
             insts = exgen.gen_golomb_all(gol_max)
-        items = [(i, True) for i in insts]
+        items = [(i, True) for i in exgen.corpus(ex)] + [(i, True) for i in insts]
         if tier == "thorough":
             items += [(i, False) for i in exgen.exhaustive(ex)]
-        dd = dist.setdefault(ex, {"random": 0, "exhaustive": 0, "shapes": {}, "sizes": {}})
+        dd = dist.setdefault(ex, {"random": 0, "exhaustive": 0, "corpus": len(exgen.corpus(ex)), "shapes": {}, "sizes": {}})
         for k, (ins, full) in enumerate(items):
             path = os.path.join(d, "i%05d.txt" % k)
             with open(path, "w") as f: f.write(ins["text"])
@@ -295,6 +297,13 @@ def check_c16(tier):
     t_run = time.time()
     with concurrent.futures.ThreadPoolExecutor(max_workers=12) as pool:
         results = list(pool.map(do_job, jobs))
+    # a time-out under the load of the parallel runs is re-tried alone, with twice the patience, before it counts as a hang
+    retried = 0
+    for ji, res in enumerate(results):
+        if res["kind"] == "hang":
+            wi, w, t = jobs[ji]
+            ex, ins, path, full, k = work[wi]
+            results[ji] = run_binary(ex, ins, path, w, t, patience=2); retried += 1
     t_run = time.time() - t_run
 
     # ---- 4. compare
@@ -342,7 +351,7 @@ def check_c16(tier):
         seen_cls[key] = seen_cls.get(key, 0) + 1
         if seen_cls[key] > 3: continue           # the smallest witnesses of each class are enough
         what = {"wrong-objective": "prints objective %s, the enumeration gives %s" % (res["got"], want),
-                "hang": "does not terminate within %d s" % RUN_TIMEOUT, "crash": "crashes (%s)" % res.get("why", res["out"].strip().split("\n")[-1])[:200],
+                "hang": "does not terminate within %d s" % res["secs"], "crash": "crashes (%s)" % res.get("why", res["out"].strip().split("\n")[-1])[:200],
                 "not-proved": "reports an aborted / unproved search without any cutoff"}[kind]
         chk.violation("property", "example %s (%s, shape %s, width %s, threads %s) %s" % (ex, cls, ins["shape"], w, t, what),
                       {"example": ex, "class": cls, "shape": ins["shape"], "instance": ins["text"], "instance_arg": ins["arg"],
@@ -362,7 +371,7 @@ def check_c16(tier):
         configurations={"widths": ["1", "2", "3", "default"], "threads": list(THREADS)},
         per_example=per, input_distribution=dist, samples=samples,
         oracle_validation={"instances_with_documented_optimum": len(known), "reproduced": sum(v[0] for v in validated.values())},
-        failing_runs=len(failures), binaries_wall_s=round(t_run, 1),
+        failing_runs=len(failures), binaries_wall_s=round(t_run, 1), timeouts_retried_alone=retried,
         explanation="12 example binaries built from the working tree; %d instance files (%s per example from the seeded "
                     "generators%s); each run in its own process with a watchdog; oracle = extracted Coq enumeration"
                     % (len(work), n_random, ", plus the bounded-exhaustive families of the smallest sizes" if tier == "thorough" else ""),
